@@ -39,7 +39,7 @@ def run(ctx, scale=1):
                          'box/prism/pyramid/octahedron/tetrahedron)} × both argument orders; vertex/face order shuffled; the flat is built through features of '
                          'the body (vertex, edge point, face point, interior point, outside point; face plane, supporting plane, plane through an edge); '
                          'non-trivial = non-empty exact intersection')
-    ctx.extra['unproved'] = ['K3 planeCutPolyhedron_exact', 'K5 Polyhedron.mem_iff_hull (⊇ direction); polyhedron halves decided by correspondence against Oracle (vertex enumeration)']
+    ctx.extra['unproved'] = ['that every body stored by the constructor meets ExactHyp is not a theorem: it is judged per body by the Lean procedure exactHypB (proved sound)']
     total = ctx.n(2500, 80000) * scale
     cases = []
     for part in core.pmap(work, core.chunks(ctx, total, per=100)):
@@ -47,6 +47,12 @@ def run(ctx, scale=1):
     outs = core.model_lines(['inter %s %s' % (tok(A), tok(B)) for A, B, _, _ in cases])
     for (A, B, cls, obs), ml in zip(cases, outs):
         interlib.judge(ctx, 'C02', A, B, cls, obs, ml)
+    # hypotheses of the exactness theorems (K0/K1: polygon Valid; K3/K5: ExactHyp), judged by Lean on the composite operand of every case
+    comps = [A if A[0] in 'GB' else B for A, B, _, _ in cases]
+    hyp = core.model_lines(['exacthyp %s' % tok(K) for K in comps])
+    for K, h in zip(comps, hyp):
+        key = 'hypotheses_%s_%s' % ('polyhedron' if K[0] == 'B' else 'polygon', 'hold' if h.strip() == 'true true' else 'fail:' + h.strip().replace(' ', '_'))
+        ctx.dist[key] = ctx.dist.get(key, 0) + 1
     for A, B, cls, obs in cases[:5]:
         ctx.sample('intersection(%s, %s) [%s] -> %s' % (tok(A)[:120], tok(B)[:120], cls, interlib.describe_obs(obs)))
     interlib.finish_model_check(ctx)
